@@ -781,7 +781,7 @@ impl Scenario for C11 {
     fn runs(&self, tier: Tier) -> u64 {
         match tier {
             Tier::Quick => 40_000,
-            Tier::Thorough => 1_200_000,
+            Tier::Thorough => 600_000,
         }
     }
 
